@@ -830,8 +830,17 @@ pub fn simplify_solution(sol: &Value) -> Value {
                                         av["start"] = time(&tm["start"]);
                                         av["end"] = time(&tm["end"]);
                                     }
-                                    if a.get("commute").is_some() {
-                                        av["commute"] = json!(true);
+                                    if let Some(c) = a.get("commute") {
+                                        // the commute legs as reported: where from / to, how far, from when to when
+                                        let leg = |l: &Value| -> Value {
+                                            if l.is_null() {
+                                                Value::Null
+                                            } else {
+                                                json!({"loc": l["location"]["index"], "dist": num(&l["distance"]),
+                                                       "start": time(&l["time"]["start"]), "end": time(&l["time"]["end"])})
+                                            }
+                                        };
+                                        av["commute"] = json!({"fwd": leg(&c["forward"]), "bwd": leg(&c["backward"])});
                                     }
                                     av
                                 })
